@@ -197,6 +197,32 @@ def one(rec, hub, seed, tier, i, tmpdir):
         check_dict(rec, fd, d, mfa, before, loaded, "numpy", bad, where="pickle")
     # ---- csv exports -----------------------------------------------------------------------
     fdir = os.path.join(tmpdir, f"flows_{i}", "nested")
+    if i % 6 in (2, 5) and names:
+        # an earlier export attempt, into the same directories, of ANOTHER system whose names collide after sanitising (outside the
+        # statement's domain: whatever it does - overwrite, refuse - is not judged); the user clears the directories and exports the
+        # present, well-named system, whose names map onto the same files
+        try:
+            tl_ = [l for l, n_, it_, dt_ in d.dims][:1]
+            procs_ = fd.make_processes(["sysenv", "somewhere"])
+            dims_ = SY.fd_dims(fd, d)
+            fl_ = fd.make_empty_flows(processes=procs_, dims=dims_, flow_definitions=[
+                fd.FlowDefinition(from_process_name="sysenv", to_process_name="somewhere", dim_letters=tuple(tl_), name_override=names[0] + "!"),
+                fd.FlowDefinition(from_process_name="somewhere", to_process_name="sysenv", dim_letters=tuple(tl_), name_override=names[0] + "?")])
+            st_defs = [fd.StockDefinition(name=d.stocks[0]["name"] + sfx, process_name="somewhere", dim_letters=tuple(d.stocks[0]["letters"]), subclass=fd.SimpleFlowDrivenStock, time_letter=d.stocks[0]["time_letter"]) for sfx in ("!", "?")] if d.stocks else []
+            st_ = fd.make_empty_stocks(stock_definitions=st_defs, processes=procs_, dims=dims_)
+            other = fd.MFASystem(dims=dims_, parameters={}, processes=procs_, flows=fl_, stocks=st_)
+            with hub.pause():
+                for f_, dir_ in ((lambda: ex.export_mfa_flows_to_csv(other, fdir), fdir),
+                                 (lambda: ex.export_mfa_stocks_to_csv(other, os.path.join(tmpdir, f"stocks_{i}_0")), os.path.join(tmpdir, f"stocks_{i}_0")),
+                                 (lambda: ex.export_mfa_stocks_to_csv(other, os.path.join(tmpdir, f"stocks_{i}_1"), with_in_and_out=True), os.path.join(tmpdir, f"stocks_{i}_1"))):
+                    try:
+                        f_()
+                    except Exception:
+                        pass
+                    shutil.rmtree(dir_, ignore_errors=True)
+            rec.event(M, sig=f"after-colliding-export|{shape_sig}", cls="csv|export-after-an-export-of-colliding-names")
+        except Exception as e:
+            rec.skip(M, f"colliding system could not be built: {type(e).__name__}")
     audit_on()
     try:
         ex.export_mfa_flows_to_csv(mfa, fdir)
@@ -345,6 +371,11 @@ def check_csv(rec, fd, path, arr, snap, what, bad):
         back = fd.FlodymArray.from_df(dims=arr.dims, df=df)
         if not np.array_equal(back.values, snap.values):
             bad("csv-reimport-differs", what=what)
+        # the tolerant flags change nothing for a complete file without strangers
+        for flags in (dict(allow_extra_values=True), dict(allow_missing_values=True), dict(allow_extra_values=True, allow_missing_values=True)):
+            back = fd.FlodymArray.from_df(dims=arr.dims, df=df.copy(), **flags)
+            if not np.array_equal(back.values, snap.values):
+                bad("csv-reimport-differs:" + "+".join(sorted(flags)), what=what)
     except Exception as e:
         bad("csv-reimport-raised", what=what, exc=f"{type(e).__name__}: {str(e)[:200]}")
 
